@@ -196,14 +196,7 @@ Section Spec.
     eval (parse template) args kwargs Unused.
 End Spec.
 
-(* ------------------------------------------------------------- guards *)
-(* Used only as hypotheses of the partial theorem (ProofsFormat.v):
-   every element of the template is a byte, and every numeric field name
-   denotes a number below 2^63 (Go's `decimal` computes it in an int). *)
+(* ------------------------------------------------------- well-formedness *)
+(* Used only as a hypothesis of the theorems (ProofsFormat2.v): every element
+   of the template is a byte value (lists of N stand for Go strings). *)
 Definition is_bytes (s : fbytes) : bool := forallb (fun c => (c <? 256)%N) s.
-Definition seg_number_fits (s : seg) : bool :=
-  match s with
-  | Field (Num n) _ _ => (n <? 9223372036854775808)%N
-  | _ => true
-  end.
-Definition numbers_fit (template : fbytes) : bool := forallb seg_number_fits (parse template).
